@@ -843,6 +843,12 @@ fn check_case(sw: &Sweep, case: &[u8], kf: &[KnownFinding], sentences: &[String]
                 for (lo, hi, _) in &ranges {
                     probes.extend([*lo, *hi, lo.saturating_sub(1), (*hi + 1).min(0xFFFF)]);
                 }
+                // characters above U+FFFF that share the low 16 bits of a range bound are never
+                // covered by a range line (unless U+0000 is: that is the recorded finding K2)
+                if !ranges.iter().any(|(lo, _, _)| *lo == 0) {
+                    let aliases: Vec<u32> = ranges.iter().flat_map(|(lo, hi, _)| [*lo + 0x1_0000, *hi + 0x2_0000]).filter(|v| *v <= 0x10FFFF).collect();
+                    probes.extend(aliases);
+                }
                 probes.sort();
                 probes.dedup();
                 for cp in probes {
